@@ -85,6 +85,12 @@ Proof.
   - inversion H; subst. eauto.
 Qed.
 
+Lemma texts_eqb_eq a b : texts_eqb a b = true <-> a = b.
+Proof.
+  revert b; induction a as [|x a IH]; destruct b as [|y b]; simpl; try (split; congruence).
+  rewrite andb_true_iff, text_eqb_eq, IH. split; [intros [-> ->]; reflexivity|intros H; inversion H; auto].
+Qed.
+
 (* ================================================================== *)
 (* the stable insertion sort *)
 
@@ -266,60 +272,99 @@ Lemma mv_add_plain m v ao :
   mkMV (isort entry_leb (mv_views m ++ [entry_of v])) (mv_media m) (mv_accepts m).
 Proof. intros H. unfold mv_add. rewrite replace_phash_none by assumption. reflexivity. Qed.
 
+Lemma unregister_all_other R s l s' vt : s <> s' -> unregister_all R s l s' vt = R s' vt.
+Proof.
+  intros H. unfold unregister_all. revert R. induction l as [|x l IH]; intros R; simpl; [reflexivity|].
+  rewrite IH. apply reg_set_other_slot. assumption.
+Qed.
+
+Lemma unregister_all_none R s l vt : R s vt = None -> unregister_all R s l s vt = None.
+Proof.
+  unfold unregister_all. revert R. induction l as [|x l IH]; intros R H; simpl; [assumption|].
+  apply IH. unfold reg_set. rewrite slot_eqb_refl. simpl. destruct (vtype_eqb x vt); auto.
+Qed.
+
+Lemma unregister_all_in R s l vt : In vt l -> unregister_all R s l s vt = None.
+Proof.
+  unfold unregister_all. revert R. induction l as [|x l IH]; intros R H; [destruct H|].
+  destruct H as [->|H]; simpl.
+  - apply (unregister_all_none _ s l vt). apply reg_set_same.
+  - apply IH. assumption.
+Qed.
+
 Lemma register_view_other ao R v s vt : r_slot v <> s -> register_view ao R v s vt = R s vt.
 Proof.
-  intros H. unfold register_view. cbv zeta. rewrite unregister_view_types_ok.
-  match goal with |- (if ?c then _ else _) s vt = _ => destruct c end.
-  - apply reg_set_other_slot; assumption.
-  - simpl. rewrite !reg_set_other_slot by assumption. reflexivity.
+  intros H. unfold register_view. cbv zeta.
+  match goal with |- (if ?c then _ else _) s vt = _ => destruct c end;
+    rewrite reg_set_other_slot by assumption; apply unregister_all_other; assumption.
 Qed.
 
+(* first registration of a slot *)
 Lemma register_view_fresh ao R v :
   R (r_slot v) IView = None -> R (r_slot v) ISecuredView = None -> R (r_slot v) IMultiView = None ->
-  register_view ao R v = reg_set R (r_slot v) (vt_of v) (Some (CView v)).
+  register_view ao R v (r_slot v) (vt_of v) = Some (CView v)
+  /\ forall vt, vt <> vt_of v -> register_view ao R v (r_slot v) vt = None.
 Proof.
-  intros H1 H2 H3. unfold register_view. cbv zeta. rewrite register_view_types_ok. simpl.
-  rewrite H1, H2, H3. simpl. reflexivity.
+  intros H1 H2 H3. unfold register_view. cbv zeta. rewrite register_view_types_ok.
+  cbn [first_registered]. rewrite H1, H2, H3. cbv beta iota. cbn [negb orb andb]. split.
+  - apply reg_set_same.
+  - intros vt Hvt. rewrite reg_set_other_vt.
+    + apply unregister_all_none. destruct vt; assumption.
+    + unfold vt_of in Hvt. destruct vt, (r_secured v); simpl; try reflexivity; contradiction.
 Qed.
 
-Definition unreg2 (R : registry) (s : slot) : registry :=
-  reg_set (reg_set R s IView None) s ISecuredView None.
+Lemma unregister_views_at R s c vt :
+  reg_set (unregister_all R s unregister_view_types) s IMultiView c s vt =
+  match vt with IMultiView => c | _ => None end.
+Proof.
+  rewrite unregister_view_types_ok. destruct vt.
+  - rewrite reg_set_other_vt by reflexivity. apply unregister_all_in. simpl; auto.
+  - rewrite reg_set_other_vt by reflexivity. apply unregister_all_in. simpl; auto.
+  - apply reg_set_same.
+Qed.
 
-Lemma register_view_second ao R v o :
+(* second registration of a slot (another phash): a MultiView is created *)
+Lemma register_view_second ao R v o vt :
   R (r_slot v) (vt_of o) = Some (CView o) ->
   (forall vt, vt <> vt_of o -> R (r_slot v) vt = None) ->
   r_phash o <> r_phash v -> r_accept o = None -> r_accept v = None ->
-  register_view ao R v =
-  reg_set (unreg2 R (r_slot v)) (r_slot v) IMultiView
-          (Some (CMulti (mkMV (isort entry_leb ([entry_of o] ++ [entry_of v])) [] []))).
+  register_view ao R v (r_slot v) vt =
+  match vt with
+  | IMultiView => Some (CMulti (mkMV (isort entry_leb ([entry_of o] ++ [entry_of v])) [] []))
+  | _ => None
+  end.
 Proof.
   intros H1 H2 Hne Ho Hv. unfold register_view. cbv zeta.
-  rewrite register_view_types_ok, unregister_view_types_ok.
+  rewrite register_view_types_ok.
   assert (Hf : first_registered R (r_slot v) [IView; ISecuredView; IMultiView] = Some (CView o)).
   { simpl. unfold vt_of in *. destruct (r_secured o).
     - rewrite (H2 IView) by discriminate. rewrite H1. reflexivity.
     - rewrite H1. reflexivity. }
-  rewrite Hf. rewrite attr_phash_eq, attr_order_eq, (attr_accept_none _ Ho). simpl.
-  destruct (text_eqb_spec (r_phash o) (r_phash v)) as [E|_]; [contradiction|]. simpl.
+  rewrite Hf. rewrite attr_phash_eq, attr_order_eq, (attr_accept_none _ Ho). cbv beta iota.
+  destruct (text_eqb_spec (r_phash o) (r_phash v)) as [E|_]; [contradiction|]. cbn [negb orb andb].
   rewrite Hv.
   assert (Hm : mv_add mv_empty o (r_order o) (r_phash o) None None = mkMV [entry_of o] [] []).
   { reflexivity. }
   rewrite Hm. rewrite mv_add_plain.
-  - reflexivity.
+  - apply unregister_views_at.
   - simpl. intros e [<-|[]]. simpl. assumption.
 Qed.
 
-Lemma register_view_multi ao R v m :
+(* later registrations: added to the MultiView *)
+Lemma register_view_multi ao R v m vt :
   R (r_slot v) IView = None -> R (r_slot v) ISecuredView = None ->
   R (r_slot v) IMultiView = Some (CMulti m) ->
   (forall e, In e (mv_views m) -> e_phash e <> r_phash v) -> r_accept v = None ->
-  register_view ao R v =
-  reg_set (unreg2 R (r_slot v)) (r_slot v) IMultiView
-          (Some (CMulti (mkMV (isort entry_leb (mv_views m ++ [entry_of v])) (mv_media m) (mv_accepts m)))).
+  register_view ao R v (r_slot v) vt =
+  match vt with
+  | IMultiView => Some (CMulti (mkMV (isort entry_leb (mv_views m ++ [entry_of v])) (mv_media m) (mv_accepts m)))
+  | _ => None
+  end.
 Proof.
   intros H1 H2 H3 Hne Hv. unfold register_view. cbv zeta.
-  rewrite register_view_types_ok, unregister_view_types_ok. simpl.
-  rewrite H1, H2, H3. simpl. rewrite Hv. rewrite mv_add_plain by assumption. reflexivity.
+  rewrite register_view_types_ok. cbn [first_registered].
+  rewrite H1, H2, H3. cbv beta iota. cbn [negb orb andb]. rewrite Hv. rewrite mv_add_plain by assumption.
+  apply unregister_views_at.
 Qed.
 
 Lemma slot_regs_snoc_same regs v : slot_regs (regs ++ [v]) (r_slot v) = slot_regs regs (r_slot v) ++ [v].
@@ -345,13 +390,6 @@ Proof.
     apply Forall_app. split; [assumption|]. constructor; [reflexivity|constructor].
 Qed.
 
-Lemma unreg2_multi R s c vt :
-  reg_set (unreg2 R s) s IMultiView c s vt =
-  match vt with IMultiView => c | _ => None end.
-Proof.
-  unfold unreg2, reg_set. rewrite slot_eqb_refl. destruct vt; reflexivity.
-Qed.
-
 Lemma inv_step ao regs R v :
   inv regs R ->
   (forall w, In w regs -> r_slot w = r_slot v -> r_phash w <> r_phash v) ->
@@ -369,17 +407,15 @@ Proof.
   specialize (Hinv (r_slot v)). unfold slot_inv in Hinv.
   destruct (slot_regs regs (r_slot v)) as [|o [|o2 t]] eqn:El.
   - (* first registration of the slot *)
-    destruct Hinv as (H1 & H2 & H3). rewrite (register_view_fresh ao R v H1 H2 H3). simpl. split.
-    + apply reg_set_same.
-    + intros vt Hvt. rewrite reg_set_other_vt; [destruct vt; assumption|].
-      destruct vt, (vt_of v); simpl; try reflexivity; contradiction.
+    destruct Hinv as (H1 & H2 & H3). exact (register_view_fresh ao R v H1 H2 H3).
   - (* second: a MultiView is created *)
     destruct Hinv as (H1 & H2).
     assert (Ho : In o regs /\ r_slot o = r_slot v) by (apply slot_regs_in; rewrite El; simpl; auto).
     destruct Ho as [Ho1 Ho2].
     assert (Hoa : r_accept o = None) by (apply Hna, in_or_app; auto).
-    rewrite (register_view_second ao R v o H1 H2 (Hk o Ho1 Ho2) Hoa Hv). simpl.
-    rewrite !unreg2_multi. split; [reflexivity|]. split; [reflexivity|].
+    change ([o] ++ [v]) with [o; v]. unfold slot_inv.
+    rewrite !(register_view_second ao R v o _ H1 H2 (Hk o Ho1 Ho2) Hoa Hv).
+    split; [reflexivity|]. split; [reflexivity|].
     eexists. split; [reflexivity|].
     apply (mv_ok_snoc (mkMV [entry_of o] [] []) [o] v); [|assumption].
     unfold mv_ok; simpl. repeat split; try reflexivity; repeat constructor.
@@ -391,9 +427,9 @@ Proof.
       assert (Hin : In (e_view e) (slot_regs regs (r_slot v))).
       { rewrite El. eapply Permutation_in; [exact Hp|]. apply in_map. assumption. }
       apply slot_regs_in in Hin. destruct Hin. apply Hk; assumption. }
-    rewrite (register_view_multi ao R v m H1 H2 H3 Hne Hv).
-    change ((o :: o2 :: t) ++ [v]) with (o :: o2 :: (t ++ [v])). cbv beta iota.
-    rewrite !unreg2_multi. split; [reflexivity|]. split; [reflexivity|].
+    change ((o :: o2 :: t) ++ [v]) with (o :: o2 :: (t ++ [v])). unfold slot_inv.
+    rewrite !(register_view_multi ao R v m _ H1 H2 H3 Hne Hv).
+    split; [reflexivity|]. split; [reflexivity|].
     eexists. split; [reflexivity|].
     change (o :: o2 :: t ++ [v]) with ((o :: o2 :: t) ++ [v]).
     apply mv_ok_snoc; assumption.
@@ -421,3 +457,557 @@ Proof.
     unfold key. congruence.
   - assumption.
 Qed.
+
+(* ================================================================== *)
+(* the tried sequence, slot by slot *)
+
+Definition block (R : registry) (s : slot) (rq : request) : list reg :=
+  flat_map (fun vt => match R s vt with Some c => comp_regs rq c | None => [] end) find_view_types.
+
+Lemma tried_blocks R cls rq :
+  tried R cls rq =
+  flat_map (fun rc => block R (mkSlot cls (fst rc) (snd rc) (q_view_name rq)) rq)
+           (list_prod (q_req_sro rq) (q_ctx_sro rq)).
+Proof.
+  unfold tried, find_views. rewrite flat_map_flat_map. apply flat_map_ext. intros rc.
+  rewrite flat_map_flat_map. unfold block. apply flat_map_ext. intros vt.
+  destruct (R _ vt); simpl; [apply app_nil_r|reflexivity].
+Qed.
+
+Definition by_order (a b : reg) : Prop := (r_order a <= r_order b)%Z.
+
+Lemma entries_sorted_by_order l :
+  entries_sorted l -> Forall entry_ok l -> StronglySorted by_order (map e_view l).
+Proof.
+  induction 1 as [|e l Hl IH He]; intros Hok; simpl; [constructor|].
+  inversion Hok as [|? ? Hoe Hol]; subst. constructor; [auto|].
+  apply Forall_map. rewrite Forall_forall in *. intros b Hb.
+  specialize (He b Hb). unfold entry_leb in He. apply Z.leb_le in He.
+  unfold by_order. pose proof (Hol b Hb) as Hb'. unfold entry_ok in Hoe, Hb'.
+  assert (E1 : e_order e = r_order (e_view e)) by (rewrite Hoe at 1; reflexivity).
+  assert (E2 : e_order b = r_order (e_view b)) by (rewrite Hb' at 1; reflexivity).
+  lia.
+Qed.
+
+Lemma block_spec R s l rq :
+  slot_inv R s l -> Permutation (block R s rq) l /\ StronglySorted by_order (block R s rq).
+Proof.
+  unfold block. rewrite find_view_types_ok. cbn [flat_map]. unfold slot_inv.
+  destruct l as [|v [|v2 t]].
+  - intros (H1 & H2 & H3). rewrite H1, H2, H3. simpl. split; constructor.
+  - intros (H1 & H2). unfold vt_of in *. destruct (r_secured v).
+    + rewrite H1, (H2 IView), (H2 IMultiView) by discriminate. simpl. split; repeat constructor.
+    + rewrite H1, (H2 ISecuredView), (H2 IMultiView) by discriminate. simpl. split; repeat constructor.
+  - intros (H1 & H2 & m & H3 & Ha & Hp & Hs & Hf). rewrite H1, H2, H3. cbn [comp_regs app].
+    rewrite app_nil_r. unfold get_views. rewrite Ha. split; [assumption|].
+    apply entries_sorted_by_order; assumption.
+Qed.
+
+(* ================================================================== *)
+(* resolution orders *)
+
+Lemma precedes_irrefl l x : precedes l x x = false.
+Proof.
+  induction l as [|y l IH]; simpl; [reflexivity|].
+  destruct (N.eqb y x) eqn:E; [reflexivity|exact IH].
+Qed.
+
+Lemma precedes_order l :
+  NoDup l -> ForallOrdPairs (fun x y => precedes l y x = false /\ x <> y) l.
+Proof.
+  induction 1 as [|y l Hy Hl IH]; constructor.
+  - apply Forall_forall. intros c Hc.
+    assert (Hne : y <> c) by (intros ->; contradiction).
+    split; [|assumption]. simpl. apply N.eqb_neq in Hne. rewrite Hne, N.eqb_refl. reflexivity.
+  - eapply FOP_weaken; [exact IH|]. intros a b Ha Hb [H1 H2]. split; [|assumption].
+    simpl. assert (y <> a) by (intros ->; contradiction). assert (y <> b) by (intros ->; contradiction).
+    rewrite (proj2 (N.eqb_neq y b)), (proj2 (N.eqb_neq y a)) by assumption. assumption.
+Qed.
+
+Lemma prod_order {A B} (P1 : A -> A -> Prop) (P2 : B -> B -> Prop) l1 l2 :
+  ForallOrdPairs P1 l1 -> ForallOrdPairs P2 l2 ->
+  ForallOrdPairs (fun p q => P1 (fst p) (fst q) \/ (fst p = fst q /\ P2 (snd p) (snd q))) (list_prod l1 l2).
+Proof.
+  intros H1 H2. induction H1 as [|x l Hx Hl IH]; simpl; [constructor|].
+  apply FOP_app.
+  - apply FOP_map. eapply FOP_weaken; [exact H2|]. intros a b _ _ H. right. simpl. auto.
+  - exact IH.
+  - intros p q Hp Hq. apply in_map_iff in Hp. destruct Hp as (a & <- & _).
+    destruct q as [q1 q2]. apply in_prod_iff in Hq. destruct Hq as [Hq _].
+    left. simpl. rewrite Forall_forall in Hx. auto.
+Qed.
+
+Lemma SSorted_weaken_in {A} (P Q : A -> A -> Prop) l :
+  StronglySorted P l -> (forall a b, In a l -> In b l -> P a b -> Q a b) -> StronglySorted Q l.
+Proof.
+  induction 1 as [|x l Hl IH Hx]; intros H; constructor.
+  - apply IH. intros a b Ha Hb. apply H; simpl; auto.
+  - rewrite Forall_forall in *. intros b Hb. apply H; simpl; auto.
+Qed.
+
+(* ================================================================== *)
+(* lookup_winner *)
+
+(* within a slot, more predicates give a smaller order (discharged for orders computed by
+   PredicateList.make in order_respects_made below) *)
+Definition order_respects (regs : list reg) : Prop :=
+  forall a b, In a regs -> In b regs -> r_slot a = r_slot b ->
+              (n_preds b < n_preds a)%nat -> (r_order a < r_order b)%Z.
+
+Definition reg_wf (v : reg) : Prop := r_phash v = concat (map pred_phash (r_preds v)).
+
+Lemma more_specific_irrefl rq x : more_specific rq x x = false.
+Proof.
+  unfold more_specific. rewrite !precedes_irrefl, Nat.ltb_irrefl, !andb_false_r. reflexivity.
+Qed.
+
+Lemma tried_sorted regs R cls rq :
+  inv regs R -> NoDup (q_req_sro rq) -> NoDup (q_ctx_sro rq) -> order_respects regs ->
+  StronglySorted (fun a b => more_specific rq b a = false) (tried R cls rq).
+Proof.
+  intros Hinv Hr Hc Hord. rewrite tried_blocks. apply SSorted_flat_map.
+  - intros [r c] _. simpl.
+    destruct (block_spec R _ _ rq (Hinv (mkSlot cls r c (q_view_name rq)))) as [Hp Hs].
+    eapply SSorted_weaken_in; [exact Hs|]. intros a b Ha Hb Hab.
+    apply (Permutation_in _ Hp), slot_regs_in in Ha. apply (Permutation_in _ Hp), slot_regs_in in Hb.
+    destruct Ha as [Ha1 Ha2], Hb as [Hb1 Hb2]. unfold more_specific. rewrite Ha2, Hb2.
+    rewrite !precedes_irrefl, andb_false_r. simpl. rewrite slot_eqb_refl. simpl.
+    apply Nat.ltb_ge. destruct (Nat.le_gt_cases (n_preds b) (n_preds a)) as [|Hlt]; [assumption|].
+    exfalso. unfold by_order in Hab.
+    assert (r_order b < r_order a)%Z by (apply Hord; auto; congruence). lia.
+  - eapply FOP_weaken; [exact (prod_order _ _ _ _ (precedes_order _ Hr) (precedes_order _ Hc))|].
+    intros [r1 c1] [r2 c2] _ _ H a b Ha Hb. simpl in *.
+    destruct (block_spec R _ _ rq (Hinv (mkSlot cls r1 c1 (q_view_name rq)))) as [Hp1 _].
+    destruct (block_spec R _ _ rq (Hinv (mkSlot cls r2 c2 (q_view_name rq)))) as [Hp2 _].
+    apply (Permutation_in _ Hp1), slot_regs_in in Ha. apply (Permutation_in _ Hp2), slot_regs_in in Hb.
+    destruct Ha as [_ Ha], Hb as [_ Hb]. unfold more_specific. rewrite Ha, Hb. simpl.
+    destruct H as [[H1 H2]|[-> [H1 H2]]].
+    + rewrite H1. simpl. assert (E : N.eqb r2 r1 = false) by (apply N.eqb_neq; congruence).
+      rewrite E. simpl. unfold slot_eqb. simpl. rewrite E, !andb_false_r. reflexivity.
+    + rewrite precedes_irrefl, N.eqb_refl, H1. simpl.
+      assert (E : N.eqb c2 c1 = false) by (apply N.eqb_neq; congruence).
+      unfold slot_eqb. simpl. rewrite E, !andb_false_r. reflexivity.
+Qed.
+
+Lemma tried_in regs R cls rq x :
+  inv regs R -> In x (tried R cls rq) ->
+  In x regs /\ s_cls (r_slot x) = cls /\ s_name (r_slot x) = q_view_name rq
+  /\ In (s_req (r_slot x)) (q_req_sro rq) /\ In (s_ctx (r_slot x)) (q_ctx_sro rq).
+Proof.
+  intros Hinv Hx. rewrite tried_blocks in Hx. apply in_flat_map in Hx.
+  destruct Hx as ([r c] & Hrc & Hx). simpl in Hx. apply in_prod_iff in Hrc.
+  destruct (block_spec R _ _ rq (Hinv (mkSlot cls r c (q_view_name rq)))) as [Hp _].
+  apply (Permutation_in _ Hp), slot_regs_in in Hx. destruct Hx as [H1 H2]. rewrite H2. simpl. tauto.
+Qed.
+
+Lemma in_tried regs R cls rq w :
+  inv regs R -> In w regs -> s_cls (r_slot w) = cls -> s_name (r_slot w) = q_view_name rq ->
+  In (s_req (r_slot w)) (q_req_sro rq) -> In (s_ctx (r_slot w)) (q_ctx_sro rq) ->
+  In w (tried R cls rq).
+Proof.
+  intros Hinv Hw H1 H2 H3 H4. rewrite tried_blocks. apply in_flat_map.
+  exists (s_req (r_slot w), s_ctx (r_slot w)). split; [apply in_prod; assumption|]. simpl.
+  assert (Es : mkSlot cls (s_req (r_slot w)) (s_ctx (r_slot w)) (q_view_name rq) = r_slot w).
+  { destruct (r_slot w); simpl in *; subst; reflexivity. }
+  rewrite Es. destruct (block_spec R _ _ rq (Hinv (r_slot w))) as [Hp _].
+  apply (Permutation_in _ (Permutation_sym Hp)). apply slot_regs_in. auto.
+Qed.
+
+Lemma candidate_iff cls rq v :
+  candidate cls rq v = true <->
+  s_cls (r_slot v) = cls /\ s_name (r_slot v) = q_view_name rq
+  /\ In (s_req (r_slot v)) (q_req_sro rq) /\ In (s_ctx (r_slot v)) (q_ctx_sro rq)
+  /\ qualifies rq v = true.
+Proof.
+  unfold candidate. rewrite !andb_true_iff, N.eqb_eq, text_eqb_eq, !memN_In. tauto.
+Qed.
+
+Lemma effective_nodup regs :
+  Forall reg_wf regs -> NoDup (map key regs) -> effective regs = regs.
+Proof.
+  induction regs as [|v regs IH]; intros Hwf Hnd; simpl; [reflexivity|].
+  inversion Hwf as [|? ? Hv Hwf']; subst. inversion Hnd as [|? ? Hni Hnd']; subst.
+  destruct (existsb (same_registration v) regs) eqn:E.
+  - exfalso. apply existsb_exists in E. destruct E as (w & Hw & Hs). apply Hni.
+    apply in_map_iff. exists w. split; [|assumption]. unfold same_registration in Hs.
+    apply andb_true_iff in Hs. destruct Hs as [Hs1 Hs2]. apply slot_eqb_eq in Hs1.
+    apply texts_eqb_eq in Hs2. rename Hs2 into Eq.
+    rewrite Forall_forall in Hwf'. unfold key. rewrite (Hwf' w Hw), Hv, Eq, Hs1. reflexivity.
+  - rewrite IH; auto.
+Qed.
+
+Theorem lookup_winner ao regs cls rq :
+  Forall reg_wf regs -> NoDup (map key regs) -> no_accept regs ->
+  NoDup (q_req_sro rq) -> NoDup (q_ctx_sro rq) -> order_respects regs ->
+  spec_ok cls regs rq (call_view (register_all ao regs) cls rq) = true.
+Proof.
+  intros Hwf Hnd Hna Hr Hc Hord.
+  pose proof (register_all_inv ao regs Hnd Hna) as Hinv.
+  pose proof (tried_sorted regs _ cls rq Hinv Hr Hc Hord) as Hsorted.
+  pose proof (call_view_find (register_all ao regs) cls rq) as Hf.
+  unfold spec_ok, ok_by, winners_by. rewrite (effective_nodup regs Hwf Hnd).
+  destruct (find (qualifies rq) (tried (register_all ao regs) cls rq)) as [x|] eqn:Ef.
+  - rewrite Hf. apply find_split in Ef. destruct Ef as (l1 & l2 & El & Hq & Hl1).
+    assert (Hx : In x (tried (register_all ao regs) cls rq)) by (rewrite El; apply in_or_app; simpl; auto).
+    destruct (tried_in _ _ _ _ _ Hinv Hx) as (Hx1 & Hx2 & Hx3 & Hx4 & Hx5).
+    apply existsb_exists. exists x. split; [|apply N.eqb_refl].
+    apply filter_In. split.
+    + apply filter_In. split; [assumption|]. apply candidate_iff. tauto.
+    + apply negb_true_iff. apply not_true_iff_false. intros He. apply existsb_exists in He.
+      destruct He as (w & Hw & Hms). apply filter_In in Hw. destruct Hw as [Hw1 Hw2].
+      apply candidate_iff in Hw2. destruct Hw2 as (W1 & W2 & W3 & W4 & W5).
+      pose proof (in_tried _ _ _ _ _ Hinv Hw1 W1 W2 W3 W4) as Hwt. rewrite El in Hwt.
+      apply in_app_or in Hwt. destruct Hwt as [Hwt|[<-|Hwt]].
+      * rewrite (Hl1 w Hwt) in W5. discriminate.
+      * rewrite more_specific_irrefl in Hms. discriminate.
+      * rewrite El in Hsorted. rewrite (SSorted_split _ _ _ _ Hsorted w Hwt) in Hms. discriminate.
+  - assert (Hc0 : filter (candidate cls rq) regs = []).
+    { destruct (filter (candidate cls rq) regs) as [|w t] eqn:Ec; [reflexivity|exfalso].
+      assert (Hw : In w (filter (candidate cls rq) regs)) by (rewrite Ec; simpl; auto).
+      apply filter_In in Hw. destruct Hw as [Hw1 Hw2]. apply candidate_iff in Hw2.
+      destruct Hw2 as (W1 & W2 & W3 & W4 & W5).
+      pose proof (in_tried _ _ _ _ _ Hinv Hw1 W1 W2 W3 W4) as Hwt.
+      rewrite (proj1 (find_none_iff _ _) Ef w Hwt) in W5. discriminate. }
+    rewrite Hc0. destruct Hf as [-> | ->]; reflexivity.
+Qed.
+
+(* ================================================================== *)
+(* order arithmetic of PredicateList.make, over the translated expressions *)
+
+Open Scope Z_scope.
+
+Lemma order_more_first_gen M s1 s2 k1 k2 S :
+  0 <= s1 -> 0 <= s2 <= S -> 0 <= k2 < k1 ->
+  S * (k2 + 2) + (k2 + 1) * (k2 + 2) < M ->
+  (M - s1) / (k1 + 1) < (M - s2) / (k2 + 1).
+Proof.
+  intros H1 H2 Hk HM.
+  pose proof (Z.div_mod (M - s1) (k1 + 1) ltac:(lia)) as E1.
+  pose proof (Z.mod_pos_bound (M - s1) (k1 + 1) ltac:(lia)) as B1.
+  pose proof (Z.div_mod (M - s2) (k2 + 1) ltac:(lia)) as E2.
+  pose proof (Z.mod_pos_bound (M - s2) (k2 + 1) ltac:(lia)) as B2.
+  set (a := (M - s1) / (k1 + 1)) in *. set (b := (M - s2) / (k2 + 1)) in *.
+  set (r1 := (M - s1) mod (k1 + 1)) in *. set (r2 := (M - s2) mod (k2 + 1)) in *.
+  destruct (Z.lt_ge_cases a b) as [|Hab]; [assumption|exfalso].
+  assert (HS : 0 <= S * (k2 + 2)) by nia.
+  assert (Hb : 0 <= b) by nia.
+  assert (Hprod : (k2 + 2) * b <= (k1 + 1) * a) by nia.
+  assert (Hb2 : b <= S + k2) by nia.
+  assert (HX : (k2 + 1) * b <= (S + k2) * (k2 + 1)) by nia.
+  nia.
+Qed.
+
+Lemma order_of_eq s k : order_of s k = (max_order - s) / (k + 1).
+Proof. reflexivity. Qed.
+Lemma max_order_eq : max_order = 2 ^ 30.
+Proof. reflexivity. Qed.
+Lemma weight_eq n : 0 <= n -> weight n = 2 ^ (n + 1).
+Proof. intros H. unfold weight. apply Z.shiftl_1_l. Qed.
+Lemma score_step_eq s b : score_step s b = Z.lor s b.
+Proof. reflexivity. Qed.
+Lemma score_init_eq : score_init = 0.
+Proof. reflexivity. Qed.
+
+(* more predicates sort first, as long as the integer division has headroom *)
+Theorem order_more_first s1 s2 k1 k2 S :
+  0 <= s1 -> 0 <= s2 <= S -> 0 <= k2 < k1 ->
+  S * (k2 + 2) + (k2 + 1) * (k2 + 2) < max_order ->
+  order_of s1 k1 < order_of s2 k2.
+Proof. intros. rewrite !order_of_eq. apply order_more_first_gen with (S := S); assumption. Qed.
+
+(* at most 20 predicate names registered, at most 400 predicate instances on the lesser view *)
+Theorem order_more_first_default s1 s2 k1 k2 :
+  0 <= s1 -> 0 <= s2 < 2 ^ 21 -> 0 <= k2 < k1 -> k2 <= 400 ->
+  order_of s1 k1 < order_of s2 k2.
+Proof.
+  intros H1 H2 Hk Hk2. apply order_more_first with (S := 2 ^ 21); try lia.
+  rewrite max_order_eq. change (2 ^ 21) with 2097152. change (2 ^ 30) with 1073741824. nia.
+Qed.
+
+(* beyond the bound the claim fails: 28 names, 2 predicates against 1 *)
+Theorem order_bound_tight_refuted :
+  exists s1 s2 k1 k2 S,
+    0 <= s1 /\ 0 <= s2 <= S /\ 0 <= k2 < k1
+    /\ ~ (S * (k2 + 2) + (k2 + 1) * (k2 + 2) < max_order)
+    /\ ~ (order_of s1 k1 < order_of s2 k2).
+Proof.
+  exists (weight 0), (weight 28), 2, 1, (weight 28). vm_compute. repeat split; intros; discriminate.
+Qed.
+
+Lemma lor_bound m a b : 0 <= m -> 0 <= a < 2 ^ m -> 0 <= b < 2 ^ m -> 0 <= Z.lor a b < 2 ^ m.
+Proof.
+  intros Hm Ha Hb. split; [apply Z.lor_nonneg; lia|].
+  destruct (Z.eq_dec (Z.lor a b) 0) as [E|E]; [rewrite E; apply Z.pow_pos_nonneg; lia|].
+  assert (Hpos : 0 < Z.lor a b) by (pose proof (proj2 (Z.lor_nonneg a b) (conj (proj1 Ha) (proj1 Hb))); lia).
+  apply Z.log2_lt_pow2; [assumption|]. rewrite Z.log2_lor by lia.
+  destruct (Z.eq_dec a 0) as [->|Ea]; destruct (Z.eq_dec b 0) as [->|Eb].
+  - simpl in E. contradiction.
+  - rewrite Z.max_r by (simpl; apply Z.log2_nonneg). apply Z.log2_lt_pow2; lia.
+  - rewrite Z.max_l by (simpl; apply Z.log2_nonneg). apply Z.log2_lt_pow2; lia.
+  - apply Z.max_lub_lt; apply Z.log2_lt_pow2; lia.
+Qed.
+
+Definition weight_below (N : Z) (w : Z) : Prop := exists n, 0 <= n < N /\ w = weight n.
+
+Lemma score_bound N ws : 0 <= N -> Forall (weight_below N) ws -> 0 <= score_of ws < 2 ^ (N + 1).
+Proof.
+  intros HN H. unfold score_of. rewrite score_init_eq.
+  assert (G : forall s, 0 <= s < 2 ^ (N + 1) -> 0 <= fold_left score_step ws s < 2 ^ (N + 1)).
+  { induction H as [|w ws (n & Hn & ->) _ IH]; intros s Hs; simpl; [assumption|].
+    apply IH. rewrite score_step_eq. apply lor_bound; [lia|assumption|].
+    rewrite weight_eq by lia. split; [apply Z.pow_nonneg; lia|]. apply Z.pow_lt_mono_r; lia. }
+  apply G. split; [lia|]. apply Z.pow_pos_nonneg; lia.
+Qed.
+
+(* the loops of make only produce weights of listed names *)
+Lemma make_vals_weights N name n vals acc acc' :
+  0 <= n < N -> Forall (weight_below N) (snd acc) -> length (fst acc) = length (snd acc) ->
+  make_vals name n vals acc = Some acc' ->
+  Forall (weight_below N) (snd acc') /\ length (fst acc') = length (snd acc').
+Proof.
+  intros Hn. revert acc. induction vals as [|[nt v] vals IH]; intros acc Hacc Hlen H; simpl in H.
+  - inversion H; subst. auto.
+  - destruct (factory name v) as [p|]; simpl in H; [|discriminate].
+    apply IH in H; [assumption| |].
+    + simpl. apply Forall_app. split; [assumption|]. constructor; [|constructor]. exists n. auto.
+    + simpl. rewrite !app_length. simpl. congruence.
+Qed.
+
+Lemma make_loop_weights N names n kw acc acc' :
+  0 <= n -> n + Z.of_nat (length names) <= N ->
+  Forall (weight_below N) (snd acc) -> length (fst acc) = length (snd acc) ->
+  make_loop names n kw acc = Some acc' ->
+  Forall (weight_below N) (snd acc') /\ length (fst acc') = length (snd acc').
+Proof.
+  revert n acc. induction names as [|name names IH]; intros n acc Hn HN Hacc Hlen H; simpl in H.
+  - inversion H; subst. auto.
+  - simpl length in HN. destruct (assoc name kw) as [vals|].
+    + destruct (make_vals name n vals acc) as [acc1|] eqn:E; simpl in H; [|discriminate].
+      apply (make_vals_weights N) in E; [|lia|assumption|assumption]. destruct E as (E1 & E2).
+      apply IH in H; try assumption; lia.
+    + apply IH in H; try assumption; lia.
+Qed.
+
+Lemma make_spec names kw m :
+  make names kw = Some m ->
+  m_order m = order_of (score_of (m_weights m)) (Z.of_nat (length (m_preds m)))
+  /\ m_phash m = concat (map pred_phash (m_preds m))
+  /\ Forall (weight_below (Z.of_nat (length names))) (m_weights m).
+Proof.
+  unfold make. destruct (forallb _ kw); [|discriminate].
+  destruct (make_loop names 0 kw ([], [])) as [[preds weights]|] eqn:E; simpl; [|discriminate].
+  intros H; inversion H; subst; simpl. split; [reflexivity|]. split; [reflexivity|].
+  apply (make_loop_weights (Z.of_nat (length names))) in E; simpl; try lia; [|constructor].
+  apply E.
+Qed.
+
+Definition made_by (names : list text) (v : reg) : Prop :=
+  exists cls a, reg_of_args names cls a = Some v.
+
+Lemma made_by_wf names v : made_by names v -> reg_wf v.
+Proof.
+  intros (cls & a & H). unfold reg_of_args in H.
+  destruct (make names (args_kw a)) as [m|] eqn:E; simpl in H; [|discriminate].
+  inversion H; subst. unfold reg_wf. simpl. apply (make_spec _ _ _ E).
+Qed.
+
+Lemma order_respects_made names regs :
+  (length names <= 20)%nat -> Forall (made_by names) regs ->
+  Forall (fun v => (n_preds v <= 400)%nat) regs -> order_respects regs.
+Proof.
+  intros Hn Hm Hk a b Ha Hb _ Hlt. rewrite Forall_forall in Hm, Hk.
+  destruct (Hm a Ha) as (ca & aa & Ea). destruct (Hm b Hb) as (cb & ab & Eb).
+  pose proof (Hk b Hb) as Hkb.
+  unfold reg_of_args in Ea, Eb.
+  destruct (make names (args_kw aa)) as [ma|] eqn:Ma; simpl in Ea; [|discriminate].
+  destruct (make names (args_kw ab)) as [mb|] eqn:Mb; simpl in Eb; [|discriminate].
+  inversion Ea; subst a. inversion Eb; subst b. unfold n_preds in *. simpl in *.
+  destruct (make_spec _ _ _ Ma) as (Oa & _ & Wa). destruct (make_spec _ _ _ Mb) as (Ob & _ & Wb).
+  rewrite Oa, Ob.
+  pose proof (score_bound _ _ (Zle_0_nat _) Wa) as Sa. pose proof (score_bound _ _ (Zle_0_nat _) Wb) as Sb.
+  apply order_more_first_default; try lia.
+  split; [lia|]. eapply Z.lt_le_trans; [apply Sb|]. apply Z.pow_le_mono_r; lia.
+Qed.
+
+(* lookup_winner for registrations as add_view produces them: the arithmetic hypothesis is
+   discharged by make (at most 20 predicate names, at most 400 predicates per view) *)
+Theorem lookup_winner_made ao names regs cls rq :
+  (length names <= 20)%nat -> Forall (made_by names) regs ->
+  Forall (fun v => (n_preds v <= 400)%nat) regs ->
+  NoDup (map key regs) -> no_accept regs ->
+  NoDup (q_req_sro rq) -> NoDup (q_ctx_sro rq) ->
+  spec_ok cls regs rq (call_view (register_all ao regs) cls rq) = true.
+Proof.
+  intros Hn Hm Hk Hnd Hna Hr Hc. apply lookup_winner; try assumption.
+  - eapply Forall_impl; [|exact Hm]. intros v. apply made_by_wf.
+  - eapply order_respects_made; eassumption.
+Qed.
+
+Close Scope Z_scope.
+
+(* ================================================================== *)
+(* a view with a failing predicate never runs (any registry whatsoever) *)
+
+Theorem failing_pred_never_runs R cls rq t :
+  call_view R cls rq = Ran t ->
+  exists x, In x (tried R cls rq) /\ qualifies rq x = true /\ r_tag x = t.
+Proof.
+  intros H. pose proof (call_view_find R cls rq) as Hf.
+  destruct (find (qualifies rq) (tried R cls rq)) as [x|] eqn:E.
+  - rewrite Hf in H. inversion H; subst. apply find_some in E. exists x. tauto.
+  - destruct Hf as [Hf|Hf]; rewrite Hf in H; discriminate.
+Qed.
+
+(* and the search goes on after a mismatch: Not Found only if nothing tried qualifies *)
+Theorem not_found_only_if_none R cls rq :
+  not_found (call_view R cls rq) -> forall x, In x (tried R cls rq) -> qualifies rq x = false.
+Proof.
+  intros H. pose proof (call_view_find R cls rq) as Hf.
+  destruct (find (qualifies rq) (tried R cls rq)) as [x|] eqn:E.
+  - rewrite Hf in H. destruct H; discriminate.
+  - apply find_none_iff. assumption.
+Qed.
+
+(* ================================================================== *)
+(* an override replaces the single view of its slot, whichever interface either has
+   (repair of C03-override-keeps-old-iface; fails to compile against the unrepaired text) *)
+
+Lemma override_unregister_types_ok : override_unregister_types = [IView; ISecuredView].
+Proof. vm_compute. reflexivity. Qed.
+
+Theorem override_replaces ao R a b :
+  R (r_slot a) IView = None -> R (r_slot a) ISecuredView = None -> R (r_slot a) IMultiView = None ->
+  r_slot b = r_slot a -> r_phash b = r_phash a ->
+  let R2 := register_view ao (register_view ao R a) b in
+  R2 (r_slot a) (vt_of b) = Some (CView b) /\ forall vt, vt <> vt_of b -> R2 (r_slot a) vt = None.
+Proof.
+  intros H1 H2 H3 Hs Hp R2.
+  destruct (register_view_fresh ao R a H1 H2 H3) as [Ha Hn]. set (R1 := register_view ao R a) in *.
+  subst R2. unfold register_view. cbv zeta. rewrite register_view_types_ok, Hs.
+  assert (Hf : first_registered R1 (r_slot a) [IView; ISecuredView; IMultiView] = Some (CView a)).
+  { simpl. unfold vt_of in *. destruct (r_secured a).
+    - rewrite (Hn IView) by discriminate. rewrite Ha. reflexivity.
+    - rewrite Ha. reflexivity. }
+  rewrite Hf, attr_phash_eq, Hp, text_eqb_refl. cbv beta iota. cbn [negb orb andb].
+  rewrite override_unregister_types_ok. split.
+  - apply reg_set_same.
+  - intros vt Hvt. rewrite reg_set_other_vt.
+    + assert (Hm : R1 (r_slot a) IMultiView = None) by (apply Hn; unfold vt_of; destruct (r_secured a); discriminate).
+      destruct vt; [apply unregister_all_in; simpl; auto|apply unregister_all_in; simpl; auto|].
+      apply unregister_all_none. assumption.
+    + unfold vt_of in Hvt. destruct vt, (r_secured b); simpl; try reflexivity; contradiction.
+Qed.
+
+(* ================================================================== *)
+(* the built-in predicates: each holds exactly when its documented condition does *)
+
+Lemma sorted_texts_In x l : In x (sorted_texts l) <-> In x l.
+Proof.
+  unfold sorted_texts. split; apply Permutation_in; [|apply Permutation_sym]; apply isort_perm.
+Qed.
+
+Theorem pred_xhr rq b : eval_pred rq (PXhr b) = true <-> q_xhr rq = b.
+Proof. simpl. apply eqb_true_iff. Qed.
+
+Theorem pred_is_authenticated rq b : eval_pred rq (PIsAuth b) = true <-> q_auth rq = b.
+Proof. simpl. apply eqb_true_iff. Qed.
+
+(* request_method: the listed methods, and HEAD whenever GET is listed *)
+Theorem pred_request_method v l :
+  as_tuple v = Some l ->
+  exists vals, mk_method v = Some (PMethod vals) /\
+    forall rq, eval_pred rq (PMethod vals) = true <->
+               (In (q_method rq) l \/ (q_method rq = rm_head /\ In rm_get l)).
+Proof.
+  intros Hv. unfold mk_method, as_sorted_tuple. rewrite Hv. cbn [obind].
+  eexists. split; [reflexivity|]. intros rq. cbn [eval_pred]. rewrite mem_text_In.
+  destruct (mem_text rm_get (sorted_texts l)) eqn:Eg; cbn [andb negb].
+  - rewrite mem_text_In, sorted_texts_In in Eg.
+    destruct (mem_text rm_head (sorted_texts l)) eqn:Eh; cbn [andb negb].
+    + rewrite mem_text_In, sorted_texts_In in Eh. rewrite sorted_texts_In. split; [auto|].
+      intros [H|[E _]]; [assumption|rewrite E; assumption].
+    + rewrite sorted_texts_In, in_app_iff, sorted_texts_In. split.
+      * intros [H|[E|[]]]; auto.
+      * intros [H|[E _]]; [auto|]. right. left. auto.
+  - rewrite sorted_texts_In. split; [auto|]. intros [H|[_ H]]; [assumption|].
+    rewrite <- sorted_texts_In, <- mem_text_In in H. congruence.
+Qed.
+
+(* request_param: every (key, value) item needs the key present, and the value equal when one is given *)
+Theorem pred_request_param rq reqs :
+  eval_pred rq (PParam reqs) = true <->
+  forall k v, In (k, v) reqs ->
+    exists actual, assoc k (q_params rq) = Some actual /\ (v = None \/ v = Some actual).
+Proof.
+  simpl. rewrite forallb_forall. split.
+  - intros H k v Hin. specialize (H _ Hin). simpl in H.
+    destruct (assoc k (q_params rq)) as [actual|]; [|discriminate]. exists actual. split; [reflexivity|].
+    destruct v as [v|]; [|auto]. apply text_eqb_eq in H. subst. auto.
+  - intros H [k v] Hin. simpl. destruct (H k v Hin) as (actual & -> & Hv).
+    destruct Hv as [->| ->]; [reflexivity|apply text_eqb_refl].
+Qed.
+
+(* how request_param items are parsed: 'k', 'k=v', and a leading '=' belonging to the key *)
+Example param_req_forms :
+  param_req [107]%N = ([107]%N, None)                                       (* 'k' *)
+  /\ param_req [107; 61; 118]%N = ([107]%N, Some [118]%N)                   (* 'k=v' *)
+  /\ param_req [32; 107; 32; 61; 32; 118; 32]%N = ([107]%N, Some [118]%N)   (* ' k = v ' *)
+  /\ param_req [61; 107]%N = ([61; 107]%N, None)                            (* '=k' *)
+  /\ param_req [61; 107; 61; 118]%N = ([61; 107]%N, Some [118]%N)           (* '=k=v' *)
+  /\ param_req [107; 61; 118; 61; 119]%N = ([107]%N, Some [118; 61; 119]%N).  (* 'k=v=w' *)
+Proof. vm_compute. repeat split. Qed.
+
+Theorem pred_match_param rq reqs :
+  eval_pred rq (PMatchParam reqs) = true <->
+  exists md, q_matchdict rq = Some md /\ md <> [] /\ forall k v, In (k, v) reqs -> assoc k md = Some v.
+Proof.
+  simpl. destruct (q_matchdict rq) as [[|e md]|].
+  - split; [discriminate|]. intros (md & H & Hne & _). inversion H; subst. contradiction.
+  - rewrite forallb_forall. split.
+    + intros H. eexists. split; [reflexivity|]. split; [discriminate|]. intros k v Hin.
+      specialize (H _ Hin). cbn [fst snd] in H. unfold opt_text_eqb in H.
+      destruct (assoc k (e :: md)) as [x|]; [|discriminate]. apply text_eqb_eq in H. congruence.
+    + intros (md' & H & _ & Hall) [k v] Hin. inversion H; subst. cbn [fst snd].
+      rewrite (Hall k v Hin). unfold opt_text_eqb. apply text_eqb_refl.
+  - split; [discriminate|]. intros (md & H & _). discriminate.
+Qed.
+
+Theorem pred_header_present rq name :
+  eval_pred rq (PHeader [(name, None)]) = true <-> assoc name (q_headers rq) <> None.
+Proof.
+  simpl. destruct (assoc name (q_headers rq)); simpl; split; congruence.
+Qed.
+
+Theorem pred_header_value rq name pat :
+  eval_pred rq (PHeader [(name, Some pat)]) = true <->
+  exists value, assoc name (q_headers rq) = Some value /\ regex_match (q_regex rq) pat value = true.
+Proof.
+  simpl. destruct (assoc name (q_headers rq)) as [value|]; simpl.
+  - rewrite andb_true_r. split; [eauto|]. intros (v & H & Hm). inversion H; subst. assumption.
+  - split; [discriminate|]. intros (v & H & _). discriminate.
+Qed.
+
+Theorem pred_containment rq i s :
+  eval_pred rq (PContainment i s) = true <-> exists loc, In loc (q_lineage rq) /\ In i (snd loc).
+Proof.
+  simpl. rewrite existsb_exists. split; intros (loc & H1 & H2); exists loc; split; auto; apply memN_In; assumption.
+Qed.
+
+Theorem pred_physical_path rq val :
+  eval_pred rq (PPhysPath val) = true <->
+  q_has_name rq = true /\ rev (map fst (q_lineage rq)) = val.
+Proof.
+  simpl. rewrite andb_true_iff, texts_eqb_eq. reflexivity.
+Qed.
+
+Theorem pred_custom rq i : eval_pred rq (PCustom i) = true <-> In i (q_truth rq).
+Proof. simpl. apply memN_In. Qed.
+
+(* not_: negation exactly when the wrapped predicate has a non-empty phash *)
+Theorem pred_not rq p :
+  eval_pred rq (PNot p) = if nonempty (pred_phash p) then negb (eval_pred rq p) else eval_pred rq p.
+Proof.
+  simpl. destruct (pred_phash p) as [|c t] eqn:E; simpl; [reflexivity|].
+  destruct not_mark; reflexivity.
+Qed.
+
